@@ -168,6 +168,19 @@ def engine_run(c, name, menu, lines="Lines3", maxlines=3, maxfiles=2, joinsets="
     return rep
 
 
+def engine_follow_run(c, name, menu, lines="Lines3", maxlines=3, tdefs=("plain",), sample=1500, invs=("TypeOK", "FollowLimit", "IncrRefinesSem", "IncrSelectRefinesSem")):
+    """Engine.tla in mode "follow" (FollowFileExecutor: limit and running checked before each delivered line, table re-printed per line);
+    behaviours are replayed through the real FollowFileExecutor in a child process (one process per behaviour: a seeded sample)."""
+    dev = vlib.open_devs(ENGINE_DEVS)
+    k = engine_consts(dev, menu, lines, maxlines, 1, "JoinSets", ("follow",), "NoIntr", tdefs)
+    r = tlc("MC_Engine", cfg_text(constants=k, invariants=(list(invs) if not dev else ["TypeOK"]) + ["Emit"]), "engine-follow-" + name, workers=W, timeout=1500)
+    expect_holds(r, "Engine follow mode " + name); c.add_tlc(r)
+    sp, n = sample_ndjson(r.replay_path, sample, "engine-follow-" + name)
+    rep = vh_replay("engine-follow", sp, "engine-follow-" + name, env_extra={"TZ": "UTC"})
+    c.add_report(rep, reg("FollowFileExecutor vs Engine.tla (mode follow, child process)", "engine-follow"))
+    c.extra.setdefault("configs", []).append({"name": "follow-" + name, "menu": menu, "behaviours_generated": r.replays, "behaviours_replayed": rep.get("cases", 0)})
+
+
 def engine_witness(c, dev_name, menu, lines="Lines3", maxlines=3, joinsets="JoinSets", invs=("BatchRefinesSem",)):
     """an open finding must be a real counterexample of the property in the model"""
     if dev_name not in vlib.open_devs(ENGINE_DEVS):
@@ -221,6 +234,7 @@ def check_C07(tier):
     t = tier == "thorough"
     engine_run(c, "limit", "LimitMenu", lines="Lines3", maxlines=4 if t else 3, maxfiles=3 if t else 2, tdefs=("plain", "vdef") if t else ("plain",))
     engine_run(c, "limit-join", "LimitJoinMenu", lines="LinesJ", maxlines=3, maxfiles=2, tdefs=("plain",))
+    engine_follow_run(c, "limit", "FollowMenu", lines="Lines3", maxlines=4 if t else 3, sample=4000 if t else 1200)
     laws_trace(c, 2 if t else 1, 300 if t else 100)
     c.rule, c.assumptions, c.exhaustive = ENGINE_RULE, ENGINE_ASSUME, True
     return c.finish()
@@ -239,6 +253,7 @@ def check_C11(tier):
     t = tier == "thorough"
     engine_run(c, "incr", "CoreMenu", lines="LinesAgg", maxlines=5 if t else 4, maxfiles=1, modes=("incr",), tdefs=("plain", "knn"))
     engine_run(c, "incr-agg", "AggMenu", lines="LinesAgg", maxlines=3, maxfiles=1, modes=("incr",), tdefs=("plain",))
+    engine_follow_run(c, "tables", "CoreMenu", lines="LinesAgg", maxlines=4 if t else 3, tdefs=("plain", "knn"), sample=4000 if t else 1200)
     laws_trace(c, 2 if t else 1, 300 if t else 100)
     c.rule, c.assumptions, c.exhaustive = ENGINE_RULE, ENGINE_ASSUME, True
     return c.finish()
